@@ -171,6 +171,17 @@ def return_ownership(ctx: Ctx, O: Ownership, rule: str = "C08.copy") -> None:
                   "fields of the returned object", f"the object returned by {q} shares its attribute map or child list with the original")
     sm = O.sums.get("Tag.__copy__")
     ctx.require(sm is not None, "Tag.__copy__ vanished")
+    # copy.copy(x): a new object whose containers (child list, attribute map, content list) are new containers
+    for q in ("Tag.__copy__", "HTMLDocument.__copy__"):
+        sm = O.sums.get(q)
+        if sm is None:
+            continue        # no __copy__ of its own: covered by the class it inherits from / the default
+        where = f"{CORE}:{q}"
+        ctx.check(bool(sm.ret_fresh) and bool(sm.ret_fields_fresh), rule, f"copy.copy() through {q} shares no container with the original", where,
+                  "; ".join(sm.ret_detail[:2]) or "fields of the copy",
+                  f"the object returned by {q} shares a container (child list, attribute map, content) with the original "
+                  f"({'; '.join(sm.ret_detail[:2])}): adding to the copy changes the original",
+                  witness="d2 = copy.copy(doc); d2.append(div()); doc.render()")
 
 
 def copy_field_kinds(ctx: Ctx, I: Interp, rule: str = "C08.copy") -> None:
@@ -433,16 +444,15 @@ def equality(ctx: Ctx, I: Interp) -> None:
     _equals_impl_obligations(ctx, I)
 
 
-_field_cache: Dict[str, List[str]] = {}
-_uniform_done: set = set()
 
 
 def _uniform_instance_dict(ctx: Ctx, I: Interp, cls: str, kind: str) -> None:
     """_equals_impl walks x.__dict__ of its *left* operand: the comparison is complete and symmetric only if every
     instance carries the same set of instance attributes, i.e. every returning path of __init__ stores the same fields."""
-    if cls in _uniform_done:
+    done = ctx.__dict__.setdefault("_uniform_done", set())
+    if cls in done:
         return
-    _uniform_done.add(cls)
+    done.add(cls)
     prog = ctx.prog
     ci = prog.get_class(cls)
     m = prog.find_method(ci, "__init__")
@@ -665,6 +675,8 @@ def check(ctx: Ctx) -> None:
     I = Interp(ctx.prog)
     ok = tagify_table(ctx, I)
     O = purity(ctx, ok)
+    from .c20 import purity as jsx_purity     # JSXTag.tagify()/str()/repr() are read-only operations too
+    jsx_purity(ctx, rule="C08.pure")
     return_ownership(ctx, O)
     tag_tagify_shape(ctx, I)
     copy_field_kinds(ctx, I)
